@@ -89,5 +89,57 @@ P = histprop.HistProp(
     assumptions=["copy_dir/move_dir into the source's own subtree is excluded (documented non-termination)",
                  "writes at positions beyond 100 kB are excluded (allocation failure aborts, it does not panic)",
                  "RwLock poisoning is excluded (needs an earlier panic)"])
-generate, corpus, run_and_compare, known = P.generate, P.corpus, P.run_and_compare, P.known
-RULE, ASSUMPTIONS, BUILDS = P.RULE, P.ASSUMPTIONS, P.BUILDS
+generate, corpus, known = P.generate, P.corpus, P.known
+ASSUMPTIONS, BUILDS = P.ASSUMPTIONS, P.BUILDS
+RULE = P.RULE + ("; the ASYNC API: the same cases through the async port on a current-thread tokio runtime and under "
+                 "futures::executor::block_on, i.e. with NO tokio runtime entered (code that reaches for one must degrade to "
+                 "an error): any panic is a violation")
+
+
+def async_panics(cases):
+    """the async port under two executors: only panics are looked at here (behaviour is C15's subject)"""
+    import os
+    import subprocess
+    from concurrent.futures import ThreadPoolExecutor
+    exe = os.path.join(vfx.HARNESS, "target", "debug", "vfsx")
+    text = "".join(c.text() for c in cases)
+    pieces, _ = vfx.split_cases(text, vfx.NPROC)
+    jobs = []
+    for i, pc in enumerate(pieces):
+        f = os.path.join(vfx.WORK, "c13a_%d.cases" % i)
+        open(f, "w").write(pc)
+        jobs += [("tokio", [exe, "--async", f]), ("no-tokio", [exe, "--async", f, "--no-tokio"])]
+
+    def run(job):
+        r = subprocess.run(job[1], stdout=subprocess.PIPE, stderr=subprocess.PIPE, text=True, timeout=3000)
+        return job[0], r.returncode, r.stdout, r.stderr
+    with ThreadPoolExecutor(max_workers=vfx.NPROC) as ex:
+        res = list(ex.map(run, jobs))
+    by = {c.name: c for c in cases}
+    out, n = [], 0
+    for mode, rc, so, se in res:
+        if rc != 0:
+            out.append({"case": "async-harness", "case_text": "", "step": None, "op": mode, "model": None, "impl": se[-800:],
+                        "violates": True, "note": "the async harness (%s executor) died: an uncaught panic or abort" % mode})
+            continue
+        for line in so.splitlines():
+            parts = line.split(" ", 3)
+            if len(parts) == 4 and parts[0] == "r":
+                n += 1
+                if parts[3].startswith("panic") and not any(x["case"] == parts[1] for x in out):
+                    c = by.get(parts[1])
+                    out.append({"case": parts[1], "case_text": c.text() if c else "", "step": int(parts[2]),
+                                "op": (c.ops[int(parts[2])] if c else "?") + "  [async, %s executor]" % mode, "model": "no panic",
+                                "impl": parts[3], "violates": True, "note": "panic in the async API (%s executor)" % mode})
+    for i in range(len(pieces)):
+        os.remove(os.path.join(vfx.WORK, "c13a_%d.cases" % i))
+    return out, n
+
+
+def run_and_compare(cases, tier):
+    res = P.run_and_compare(cases, tier)
+    dis, n = async_panics([c for c in cases if getattr(c, "cfg", None) is not None])
+    res["disagreements"] += dis
+    res["stats"]["evaluations"] = res["stats"].get("evaluations", 0) + n
+    res["stats"].setdefault("distribution", {})["async_calls_checked_for_panics"] = n
+    return res
